@@ -33,17 +33,18 @@ type heldReply struct {
 }
 
 type fakeCtl struct {
-	mu      sync.Mutex
-	fs      *h.FakeServer
-	sess    *h.FakeSession
-	stream  []streamEv
-	policy  map[string][]string // name -> reply policy per arrival ("ok" | "err" | "silent" | "hold"); beyond the list: ok
-	errSent map[string][]int64  // instants right before an error reply was written
-	okSent  map[string][]int64
-	workQ   []chan workResult
-	workReq []string
-	onLogin func() // runs right before the LoginResp is written
-	counts  map[string]int
+	mu        sync.Mutex
+	fs        *h.FakeServer
+	sess      *h.FakeSession
+	stream    []streamEv
+	policy    map[string][]string // name -> reply policy per arrival ("ok" | "err" | "silent" | "hold"); beyond the list: ok
+	errSent   map[string][]int64  // instants right before an error reply was written
+	okSent    map[string][]int64
+	workQ     []chan workResult
+	workReq   []string
+	onLogin   func() // runs right before the LoginResp is written
+	lateDelay time.Duration
+	counts    map[string]int
 
 	// churn mode: per name one byte per message (N = NewProxy with the original metadatas, n = NewProxy with
 	// other metadatas, C = CloseProxy); every NewProxy is answered with success at once
@@ -166,6 +167,12 @@ func (f *fakeCtl) session(s *h.FakeSession) {
 				f.reply(v.ProxyName, "")
 			case "err":
 				f.reply(v.ProxyName, "port unavailable")
+			case "lateerr": // the refusal takes a while (inside the client's reply timeout)
+				name, d := v.ProxyName, f.lateDelay
+				go func() {
+					time.Sleep(d)
+					f.reply(name, "port unavailable")
+				}()
 			case "silent", "hold":
 			}
 		case *msg.CloseProxy:
@@ -342,7 +349,7 @@ func scriptedCase(c *h.Case) {
 	pfx := fmt.Sprintf("c%d.", c.Idx)
 	defer forgetPhases(pfx)
 	f := &fakeCtl{policy: map[string][]string{}, errSent: map[string][]int64{}, okSent: map[string][]int64{}}
-	templates := []string{"start-error", "missing-reply", "removed-while-outstanding", "changed-while-outstanding", "health-gated-work-conn", "unchanged-reload", "reload-during-login", "reload-during-login", "start-error-then-health-flap"}
+	templates := []string{"start-error", "missing-reply", "removed-while-outstanding", "changed-while-outstanding", "health-gated-work-conn", "unchanged-reload", "reload-during-login", "reload-during-login", "start-error-then-health-flap", "start-error-late-reply"}
 	tpl := templates[rng.Intn(len(templates))]
 	if c.Idx-baseScripted < len(templates) {
 		tpl = templates[c.Idx-baseScripted] // every template at least once in every run
@@ -371,6 +378,13 @@ func scriptedCase(c *h.Case) {
 			f.policy[a] = append(f.policy[a], "err")
 		}
 		c.Data["errors"] = k
+	case "start-error-late-reply":
+		// the error answer arrives 40-54 % of the back-off interval after the request (the reply timeout of
+		// 3 s must not expire first): the back-off runs from the refusal, not from the request
+		k = 1
+		f.lateDelay = tStartErr*40/100 + time.Duration(rng.Int63n(int64(tStartErr*14/100)))
+		f.policy[a] = []string{"lateerr"}
+		c.Data["error_reply_delay"] = f.lateDelay.String()
 	case "missing-reply":
 		f.policy[a] = []string{"silent"}
 		c.Data["late_reply"] = []string{"none", "success", "error"}[lateKind]
@@ -434,8 +448,11 @@ func scriptedCase(c *h.Case) {
 	okRun := false
 	switch tpl {
 	case "start-error":
-		okRun = tplStartError(e, a, k)
+		okRun = tplStartError(e, a, k, false)
 		sigExtra = fmt.Sprint(k)
+	case "start-error-late-reply":
+		okRun = tplStartError(e, a, 1, true)
+		sigExtra = fmt.Sprint(f.lateDelay / (100 * time.Millisecond))
 	case "missing-reply":
 		okRun = tplMissingReply(e, a, lateKind)
 		sigExtra = fmt.Sprint(lateKind)
@@ -509,7 +526,7 @@ func scriptedCase(c *h.Case) {
 }
 
 // start error x k, then success: every retry waits for the back-off interval, none is abandoned
-func tplStartError(e *sEnv, a string, k int) bool {
+func tplStartError(e *sEnv, a string, k int, late bool) bool {
 	f := e.f
 	sawStartErr := false
 	for i := 0; i < k; i++ {
@@ -537,8 +554,18 @@ func tplStartError(e *sEnv, a string, k int) bool {
 	f.mu.Lock()
 	errs := append([]int64(nil), f.errSent[a]...)
 	f.mu.Unlock()
+	if late {
+		if _, _, resent, _ := sendBreakdown(a); resent > 0 {
+			run.Inconclusive("scripted: the late error reply came later than the reply timeout")
+			return false
+		}
+	}
 	for i := 0; i < k && i < len(errs) && i+1 < len(ar); i++ {
 		if gap := time.Duration(ar[i+1].T - errs[i]); gap < tStartErr {
+			if late {
+				e.fail("start-error-retried-before-backoff-after-late-reply", "%s: the server sent its error reply %v after the registration had arrived; the next NewProxy arrived %v after that error reply, the back-off interval is %v (measured from the request it would be %v)", a, time.Duration(errs[i]-ar[i].T).Round(time.Millisecond), gap.Round(time.Millisecond), tStartErr, time.Duration(ar[i+1].T-ar[i].T).Round(time.Millisecond))
+				return false
+			}
 			e.fail("start-error-retried-before-back-off", "%s: retry %d arrived %v after the error reply was sent, the back-off interval is %v", a, i+1, gap, tStartErr)
 			return false
 		}
